@@ -6,6 +6,25 @@ BASELINE_OFF = ("cd /repo && /venv/bin/python -m pytest -ra -q -p no:cacheprovid
 TECH = "sidecar contracts on the real functions + AST->SMT VC generation (pyvc), discharged by z3/cvc5; native replay"
 
 CLAIMED = {
+    "C06": dict(
+        text="Every lifecycle coroutine of modes/game/code/game.py is verified against the fixed word of events it "
+             "must post, with the right kinds (plain / queue / relay) and the right player, player number, ball number "
+             "and balls remaining: _start_game, _start_player_turn (ball counter +1), _start_ball, _end_ball, "
+             "_end_player_turn, _end_game; _rotate_players selects the next player in order (number+1, wrapping); "
+             "the balls_in_play setter clamps to [0, balls known], posts balls_in_play iff > 0 and sets the end-of-ball "
+             "flag exactly when the count reaches zero; ball_drained, end_ball, end_game, request_player_add (the three "
+             "refusal conditions) and _player_add_request_complete (exactly one new Player with the next index). The "
+             "game loop Game._run is verified against the callee CONTRACTS with loop invariants G1-G3: one pass = one "
+             "turn of one player (turn start, one ball, extra balls, turn end, at most one rotation), no rotation => "
+             "game ending, and an extra ball is played only while the game is neither ending nor slam-tilted. Every "
+             "await of an event is a rely point where handlers may end the ball/game, tilt, award extra balls, add "
+             "players or change balls in play.",
+        note="Bounded: _end_game's score-variable loop (<= 2 players). Trusted: pyvc encoding, z3, asyncio.Event and "
+             "event-posting models, the rely (handlers never change the current player or a player's number / ball "
+             "counter), player list abstracted as 'entry i is player i+1' (established by P3). Liveness of awaited "
+             "queue events, AsyncMode task start/stop, mode_stop and 'exactly balls_per_game balls per player' (T2 + "
+             "L2 by induction, stated) are not VCs.",
+        ref="4.C06"),
     "C07": dict(
         text="Every lifecycle function of core/mode.py (start, _started, _mode_started_callback, stop, _stopped, "
              "_mode_stopped_callback, add_mode_event_handler, the three _remove_* functions, the active setter) is "
